@@ -153,6 +153,7 @@ type Profile struct {
 	SvcPm         int
 	EnvLatePm     int
 	WrapperPm     int
+	HotStatic     bool // the hot path may be one of the Static tree's paths
 	Nested        bool // register /__nested and give every request a sub-request record
 	RegVariantsPm int  // less common registration sequences (Handlers(), NotFound() twice, Use() after routes, per-route AutoHead, empty group paths, ROUTES with string methods)
 	ReqLoggerPm   int  // given Logger: a middleware in front of it maps a request-scoped logger
